@@ -296,6 +296,30 @@ func (s *State) assume(cond AV, truth bool, pos token.Pos) bool {
 	if prev, ok := s.memo[k]; ok {
 		return prev == truth
 	}
+	// an opaque comparison and its negation are one fact: x != y is kept as !(x == y), x >= y as !(x < y), x > y as !(x <= y)
+	if c, ok := cond.(avCmp); ok {
+		var dual token.Token
+		switch c.op {
+		case token.NEQ:
+			dual = token.EQL
+		case token.EQL:
+			dual = token.NEQ
+		case token.GEQ:
+			dual = token.LSS
+		case token.LSS:
+			dual = token.GEQ
+		case token.GTR:
+			dual = token.LEQ
+		case token.LEQ:
+			dual = token.GTR
+		}
+		if dual != 0 {
+			dk := avKey(avCmp{dual, c.x, c.y})
+			if prev, ok := s.memo[dk]; ok {
+				return prev != truth
+			}
+		}
+	}
 	s.memo[k] = truth
 	s.Conds = append(s.Conds, Cond{cond, truth, pos})
 	return true
@@ -576,6 +600,8 @@ type Engine struct {
 	Stop func(st *State) bool
 	// Unmodelled counts instructions whose result was left unknown, by kind (evidence).
 	Unmodelled map[string]int
+	// Cur is the instruction being evaluated (for domains whose answer depends on where a comparison stands).
+	Cur ssa.Instruction
 }
 
 func newEngine(p *Program, d Domain) *Engine {
@@ -978,6 +1004,7 @@ func (e *Engine) instrs(fr *frame, b *ssa.BasicBlock, from int, st *State, outs 
 				}
 				return
 			}
+			e.Cur = in
 			fr.env[in] = e.eval(fr, st, in)
 		case *ssa.IndexAddr:
 			// a table (an array with a few entries set, built by the package initialiser) indexed by a symbolic value:
@@ -993,6 +1020,7 @@ func (e *Engine) instrs(fr *frame, b *ssa.BasicBlock, from int, st *State, outs 
 				}
 				return
 			}
+			e.Cur = in
 			fr.env[in] = e.eval(fr, st, in)
 		case *ssa.Defer, *ssa.Go, *ssa.RunDefers, *ssa.DebugRef, *ssa.Send:
 		case ssa.Value:
@@ -1031,6 +1059,7 @@ func (e *Engine) instrs(fr *frame, b *ssa.BasicBlock, from int, st *State, outs 
 					}
 				}
 			}
+			e.Cur, _ = in.(ssa.Instruction)
 			fr.env[in] = e.eval(fr, st, in)
 		}
 	}
@@ -1591,6 +1620,17 @@ func (e *Engine) binop(st *State, op token.Token, x, y AV) AV {
 			return nil
 		}
 		return avBin{op, x, y}
+	}
+	// two symbols, one of which the path has pinned to a value: a comparison with that value
+	if sx, ok := x.(avSym); ok {
+		if sy, ok := y.(avSym); ok {
+			if k, known := st.KnownInt(sy); known {
+				return e.binop(st, op, x, avConst{constant.MakeInt64(k)})
+			}
+			if k, known := st.KnownInt(sx); known {
+				return e.binop(st, op, avConst{constant.MakeInt64(k)}, y)
+			}
+		}
 	}
 	if h, ok := e.D.(Comparer); ok && x != nil && y != nil {
 		if v, handled := h.Cmp(e, st, op, x, y); handled {
